@@ -214,6 +214,11 @@ static int stream_cb(tp_task_p tptask, int error, io_buf_p buf, uint32_t eof, si
 		t->eof_reported++;
 		sim_probe("c16.eof_reported");
 		if (!t->peer_closed) { sim_violation("io-false-eof", "task %d: end of stream (%x) reported although the peer is open", t->slot, eof); return TP_TASK_CB_NONE; }
+		if (t->kind == K_RECV && t->peer_reset && !t->faults_seen && 0 == t->err_reported) {
+			/* the peer did not close, it RESET the connection (closed with our data unread): that is a socket error */
+			sim_violation("io-error-missed", "task %d (evfl %x flags %x): the connection was reset by the peer, but the callback was told a plain end of stream (%x) and no error", t->slot, t->evfl, t->tflags, eof);
+			return TP_TASK_CB_NONE;
+		}
 		if (t->kind == K_RECV && t->done < t->peer_sent && buf->transfer_size > 0 && (eof & TP_TASK_IOF_F_BUF)) {
 			sim_violation("io-eof-early", "task %d: end of stream reported after %zu of %zu bytes with %zu bytes of window left", t->slot, t->done, t->peer_sent, buf->transfer_size);
 			return TP_TASK_CB_NONE;
